@@ -34,6 +34,7 @@ CONSTANTS Streams, RecStreams, CorLines, Policies, RecMode,
           CcStarts     \* continuity counter values the streams of the continuity family begin with (subset of 0..15)
 VARIABLES sid, mode, s
 vars == <<sid, mode, s>>
+ASSUME FreshFrameTakes       \* no data unit is "the first of a new frame" for the frame that was begun for it
 
 X == Streams[sid].bytes
 
@@ -239,4 +240,46 @@ StreamsNil == << [ts |-> TRUE, pid |-> 291, bytes |-> <<71>>, sent |-> <<>>, qui
 \* quick: an exactly full frame / a frame with one unit too many in one packet / in two packets
 StreamsCq == Sel(CapPes, <<1, 4, 6>>, Tail2) \o Sel(CapTs, <<1, 4>>, Tail2)
 StreamsCt == Sel(CapPes, AllCap, Tail2) \o Sel(CapTs, AllCap, Tail2)
+-----------------------------------------------------------------------------
+(* ---- round 3: frames that begin with an undefined line; every residue of the packet length (MC_DvbDemux_und_*.cfg) ---- *)
+U1(a, b) == T(0, a, b)                                               \* undefined line of the first field (lofp 0xE0)
+U2(a, b) == [line |-> 0, id |-> TTX, data |-> <<a, b>>, f2 |-> TRUE]  \* of the second field (0xC0)
+UFr == << <<T(7, 70, 71), T(12, 72, 73)>>,                    \* 1: ends in the first field
+          <<T(7, 70, 71), T(330, 72, 73)>>,                   \* 2: ends in the second field
+          <<U1(74, 75), T(9, 76, 77), T(321, 78, 79)>>,       \* 3: begins with an undefined line of the first field
+          <<U2(74, 75), T(320, 76, 77), T(330, 78, 79)>>,     \* 4: ... of the second field
+          <<U1(80, 81), U1(82, 83)>>, <<U2(84, 85)>>, <<U1(86, 87), T(9, 88, 89)>> >>     \* 5 6 7: undefined lines only, fields alternate
+UPts(i) == <<(i + 3) % 8, 2000 * i + 9>>
+UPk(i) == EncPes(UFr[i], UPts(i), 153, 33)
+UD(i) == [lines |-> [j \in 1..Len(UFr[i]) |-> [line |-> UFr[i][j].line, id |-> TTX, data |-> UFr[i][j].data]], pts |-> UPts(i)]
+(* [bytes, sent].  Field back / field up at the start of a packet (clause FieldUpStartsFrame) / first frame of the stream: every
+   frame is delivered as sent.  Same field: the boundary is not recognisable, the frames behind the next one are asserted. *)
+UndDamage == <<
+   [b |-> UPk(3), sent |-> <<UD(3)>> \o Sent14],                                          \* 1 first frame of the stream, first field
+   [b |-> UPk(4), sent |-> <<UD(4)>> \o Sent14],                                          \* 2 first frame, second field
+   [b |-> UPk(1) \o UPk(4), sent |-> <<UD(1), UD(4)>> \o Sent14],                         \* 3 second frame, field goes up
+   [b |-> UPk(2) \o UPk(3), sent |-> <<UD(2), UD(3)>> \o Sent14],                         \* 4 second frame, field goes back
+   [b |-> Pk(6) \o UPk(1) \o UPk(4) \o UPk(3), sent |-> <<Deliv(6), UD(1), UD(4), UD(3)>> \o Sent14],   \* 5 later frames: up, then back
+   [b |-> UPk(2) \o UPk(5) \o UPk(6) \o UPk(7), sent |-> <<UD(2), UD(5), UD(6), UD(7)>> \o Sent14],     \* 6 undefined lines only: back, up, back
+   [b |-> UPk(1) \o UPk(3), sent |-> Sent4],                                              \* 7 same field (first): not recognisable
+   [b |-> UPk(2) \o UPk(4), sent |-> Sent4] >>                                            \* 8 same field (second)
+UndPes(i, tail) == [ts |-> FALSE, pid |-> 0, bytes |-> UndDamage[i].b \o tail, sent |-> UndDamage[i].sent, quiet |-> FALSE]
+UndTs(i, tail) == [ts |-> TRUE, pid |-> 291, bytes |-> TsOfPes(UndDamage[i].b \o tail, 9), sent |-> UndDamage[i].sent, quiet |-> FALSE]
+AllUnd == [i \in 1..Len(UndDamage) |-> i]
+FieldUpNo == FALSE      \* MC_DvbDemux_und_fup.cfg: the other reading of the clause FieldUpStartsFrame (demonstration: Recovery fails on stream 3)
+(* PES_packet_length of a 5 x TSP byte packet rewritten to claim k x TSP + r bytes, k = 3, 4, every residue r in 0 .. TSP - 1: the
+   claimed end lies inside transport packet k, which goes on without payload_unit_start (EN 300 472 4.2 demands N x 184 - 6; the
+   field passes every header test).  ResTs(j): j = (k - 3) * TSP + r + 1 *)
+P55 == EncPes(Fr[5], Pts(5), 153, 5 * TSP)
+WithLen(P, n) == SetAt(SetAt(P, 4, (n - 6) \div 256), 5, (n - 6) % 256)
+ResK(j) == 3 + ((j - 1) \div TSP)
+ResR(j) == (j - 1) % TSP
+ResLen(j) == ResK(j) * TSP + ResR(j)
+ResTs(j, tail) == [ts |-> TRUE, pid |-> 291, bytes |-> TsPackets(WithLen(P55, ResLen(j)), 291, 0, TRUE) \o tail, sent |-> Sent4, quiet |-> FALSE]
+ResPes(j, tail) == [ts |-> FALSE, pid |-> 0, bytes |-> WithLen(P55, ResLen(j)) \o tail, sent |-> Sent4, quiet |-> FALSE]
+AllRes == [j \in 1..(2 * TSP) |-> j]
+RecUnd == Sel(UndPes, AllUnd, Tail4) \o Sel(UndTs, AllUnd, Tail4) \o Sel(ResTs, AllRes, TsTail4) \o Sel(ResPes, AllRes, Tail4)
+\* quick: second frame begins with an undefined second field line (PES, TS), alternating (PES), residues 1 (k = 3) and TSP - 1 (k = 4) in a TS
+StreamsUq == Sel(UndPes, <<3, 6>>, Tail2) \o Sel(UndTs, <<3>>, Tail2) \o Sel(ResTs, <<2, 2 * TSP>>, TsTail2)
+StreamsUt == Sel(UndPes, AllUnd, Tail2) \o Sel(UndTs, AllUnd, Tail2) \o Sel(ResTs, AllRes, TsTail2) \o Sel(ResPes, <<2, 7, 13, 2 * TSP>>, Tail2)
 =============================================================================
